@@ -9,7 +9,7 @@ import itertools
 from vlib import core
 
 ALPHA = [97, 233, 9824, 10, 13]          # a é ♠ \n \r
-EXTRA = [0x1F600, 32, 0x2028, 98, 88]     # 4-byte char, space, LS, b, X (= lexing error in the lexer-level queries)
+EXTRA = [0x1F600, 32, 0x2028, 98, 88, 89]   # 4-byte char, space, LS, b, X, Y (= lexing errors in the lexer-level queries)
 
 
 def chunkings(rng, text, k):
